@@ -2,7 +2,8 @@
 # dev helper: per-job wall times of the last run of a property (from log mtimes)
 import sys,os,json,glob
 pid=sys.argv[1]
-d=f'/verif/runs/{pid}/jobs'
+import os
+d=f'/verif/runs/{pid}/'+os.environ.get('TIER','quick')+'/jobs'
 rows=[]
 for jf in glob.glob(d+'/*.json'):
     if jf.endswith('.out.json'): continue
